@@ -526,7 +526,42 @@ def r19_9(chk):
     chk.floor("R19.9", 1, "the open of the temporary file in _get_fileobj")
 
 
+def r19_10(chk):
+    chk.rule("R19.10", "retiring a record tolerates what a kill can leave: DataStoreDirectory._write stores the record first and its checksum afterwards, so a record without a checksum file is a state every interruption point between the two produces -- the removal of the checksum file in drop_not_completed therefore does not insist that it exists (unlink(missing_ok=True) / an existence test); otherwise the resumed run crashes with FileNotFoundError when it completes that input")
+    m = chk.repo.module("app/data_store.py")
+    w = m.func("DataStoreDirectory._write")
+    # order of the two writes in _write: record before checksum
+    opens = [c for c in walk_no_nested(w) if isinstance(c, ast.Call) and (call_name(c) or "").split(".")[-1] == "open_" and c.args]
+    md5_pos = [c.lineno for c in opens if "_MD5_TABLE" in norm(c.args[0])]
+    rec_pos = [c.lineno for c in opens if "_MD5_TABLE" not in norm(c.args[0])]
+    if not md5_pos or not rec_pos:
+        raise AnalysisError("DataStoreDirectory._write: record / checksum writes not found")
+    record_first = min(rec_pos) < min(md5_pos)
+    fn = m.func("DataStoreDirectory.drop_not_completed")
+    md5_names = {st.targets[0].id for st in walk_no_nested(fn) if isinstance(st, ast.Assign) and isinstance(st.targets[0], ast.Name) and ("md5" in norm(st.value).lower())}
+    # close over derivations (md5_file = md5_dir / ...)
+    changed = True
+    while changed:
+        changed = False
+        for st in walk_no_nested(fn):
+            if isinstance(st, ast.Assign) and isinstance(st.targets[0], ast.Name) and st.targets[0].id not in md5_names and any(isinstance(x, ast.Name) and x.id in md5_names for x in ast.walk(st.value)):
+                md5_names.add(st.targets[0].id)
+                changed = True
+    unl = [c for c in walk_no_nested(fn) if isinstance(c, ast.Call) and isinstance(c.func, ast.Attribute) and c.func.attr == "unlink" and any(isinstance(x, ast.Name) and x.id in md5_names for x in ast.walk(c.func.value))]
+    if not unl:
+        raise AnalysisError("drop_not_completed: removal of the checksum file not found")
+    from .c09 import _enclosing_tests
+
+    for c in unl:
+        tolerant = any(kw.arg == "missing_ok" and isinstance(kw.value, ast.Constant) and kw.value.value is True for kw in c.keywords)
+        st = next(s_ for s_ in walk_no_nested(fn) if isinstance(s_, ast.stmt) and any(x is c for x in ast.walk(s_)) and not isinstance(s_, (ast.For, ast.If, ast.While, ast.With, ast.Try)))
+        guarded = any("exists()" in t and not t.startswith("not (") for t in _enclosing_tests(fn, st))
+        chk.decide(tolerant or guarded or not record_first, "R19.10", key(m, "DataStoreDirectory.drop_not_completed", "checksum removal tolerates a missing file"), m.loc(c), "missing_ok=True (or guarded by an existence test)", f"`{norm(c)}` raises FileNotFoundError when the checksum file is absent, which is the state left by a kill between the two writes of _write (record line {min(rec_pos)}, checksum line {min(md5_pos)}): a resumed apply_to that completes this input crashes")
+    chk.floor("R19.10", 1, "drop_not_completed")
+
+
 def run(chk):
+    r19_10(chk)
     # a resumed run ends with the same store only if completing an input retires the not-completed record an
     # interrupted run left for it -- in every mode: C13's R13.3 (the retirement is on every path of a completed write)
     from . import c13
